@@ -72,6 +72,96 @@ def max_abs(case):
 
 
 # ------------------------------------------------------------------------------------------------
+# independent statements of the two requestable constraints (docstrings of scheduler.py), phrased on
+# what the loops DO to the operand index (finite differences of the real AffineTransform.eval), not on
+# the code's column slicing / `%` / index-rindex logic
+# ------------------------------------------------------------------------------------------------
+TCDM_BANK_BYTES = 8   # snaxc/ir/dart/scheduler.py, snaxc/transforms/convert_dart_to_snax_stream.py
+
+
+def loop_steps(pattern, n):
+    """steps[d][r] = change of operand index r when loop d advances by one iteration."""
+    import numpy as np
+    origin = pattern.eval(np.zeros(n, dtype=np.int64))
+    out = []
+    for d in range(n):
+        e = np.zeros(n, dtype=np.int64)
+        e[d] = 1
+        out.append([int(x) for x in (pattern.eval(e) - origin).tolist()])
+    return out
+
+
+def split_loops(t_dims, n):
+    """(temporal loops, spatial loops) of an n-dim schedule on a template with t_dims dims: the innermost
+    t_dims loops are unrolled in space by the accelerator, everything outside runs in time."""
+    t = min(t_dims, n)
+    return list(range(0, n - t)), list(range(n - t, n))
+
+
+def elements_per_bank(size_bytes):
+    k = 1
+    while k * size_bytes < TCDM_BANK_BYTES:
+        k += 1
+    return k
+
+
+def violates_memory_granularity(t_dims, sched, sizes):
+    """'There must be one spatial stride of 1 that doesn't need more fine-grained temporal access within one
+    bank, such that that dimension can be packed together': for every operand with a known element size there
+    is an operand dimension r that (a) some spatially unrolled loop walks with stride exactly one element and
+    (b) every temporal loop moves by whole bank words (a multiple of the elements per 8-byte bank).
+    Only meaningful when there are temporal loops.  Returns None or a description of the offending operand."""
+    n = len(sched[0].bounds)
+    temporal, spatial = split_loops(t_dims, n)
+    if not temporal or not spatial:
+        return None
+    for j, (p, size) in enumerate(zip(sched, sizes)):
+        steps = loop_steps(p.pattern, n)
+        per_bank = elements_per_bank(size)
+        rows = p.pattern.A.shape[0]
+        packable = [r for r in range(rows)
+                    if any(steps[d][r] == 1 for d in spatial) and all(steps[d][r] % per_bank == 0 for d in temporal)]
+        if not packable:
+            return (f"operand {j} ({size}-byte elements, {per_bank} per bank): no operand dim has a unit spatial stride "
+                    f"with bank-aligned temporal strides; spatial steps {[steps[d] for d in spatial]}, "
+                    f"temporal steps {[steps[d] for d in temporal]}")
+    return None
+
+
+def violates_output_stationarity(t_dims, sched):
+    """'all parallel dimensions precede the reduction dimensions in the output operand (last operand)', outside
+    of the template: among the temporal loops (outermost first) no loop that leaves the output index unchanged
+    (reduction) encloses a loop that changes it (parallel).  Loops of extent 1 never iterate and are ignored."""
+    n = len(sched[0].bounds)
+    temporal, _ = split_loops(t_dims, n)
+    out = sched[len(sched) - 1]
+    steps = loop_steps(out.pattern, n)
+    live = [d for d in temporal if out.bounds[d] > 1]
+    for a, i in enumerate(live):
+        if any(steps[i]):
+            continue
+        for jdim in live[a + 1:]:
+            if any(steps[jdim]):
+                return (f"temporal loop {i} (extent {out.bounds[i]}) keeps the output index fixed but encloses loop {jdim} "
+                        f"(extent {out.bounds[jdim]}) that moves it by {steps[jdim]}")
+    return None
+
+
+def requested_constraint_violations(t_dims, sched, specs):
+    out = []
+    for c in specs:
+        if c[0] == "pos":
+            v = violates_output_stationarity(t_dims, sched)
+            if v:
+                out.append("pure output stationarity requested but " + v)
+        elif c[0] == "mem":
+            v = violates_memory_granularity(t_dims, sched, list(c[1]))
+            if v:
+                out.append(f"memory access granularity requested (element sizes {c[1]}) but " + v)
+    return out
+
+
+# ------------------------------------------------------------------------------------------------
 D27_FALSE_NEGATIVE = {"kind": "match",
                       "t": {"bounds": [None, None, None], "ops": [{"A": [[0, -167606, -1], [0, 1, 1]], "b": [0, 0]}]},
                       "s": {"bounds": [2, 2, 2], "ops": [{"A": [[0, 167604, -1], [0, -167606, 1]], "b": [0, 0]}]}}
@@ -202,7 +292,8 @@ class C16(SchedProp):
                            "s": {"bounds": [2, 2], "ops": [{"A": B, "b": [0, 0]}]}}
 
     def extra_search_cases(self, rng, tier):
-        while True:
+        # finite: the main stream already runs the oracle on every case, this only widens it
+        for _ in range(1500 if tier == "quick" else 40000):
             yield gen_match_case(rng)
             yield gen_check_case(rng)
             yield gen_backtrack_case(rng, "thorough")
@@ -220,6 +311,12 @@ class C16(SchedProp):
                                     f"{'equal' if exact else 'different'} (exact rational arithmetic)"
                                     + (" [|entries| >= 1000]" if big else ""),
                             "finding": "D27" if big else None})
+        elif kind == "check":
+            tn = len(case["t"]["bounds"])
+            if impl_out["holds"] and tn > 0 and case["s"]["ops"]:
+                for v in requested_constraint_violations(tn, mk_sched(case["s"]), [case["check"]]):
+                    out.append({"what": f"{'is_pure_output_stationary' if case['check'][0] == 'pos' else 'is_memory_flexible_enough'}"
+                                        f" accepts a schedule although {v}", "finding": None})
         elif kind == "backtrack":
             t = mk_tmpl(case["t"])
             tj = case["t"]
@@ -231,6 +328,11 @@ class C16(SchedProp):
                     continue
                 r = mk_sched(rj)
                 n = len(rj["bounds"])
+                if max(case["k"], 1) <= n:   # the search evaluated the requested checks on the whole schedule
+                    for v in requested_constraint_violations(tn, r, case["checks"]):
+                        out.append({"what": f"result #{i} (bounds {rj['bounds']}): {v}", "finding": None})
+                    if out:
+                        break
                 for k in range(max(case["k"], 1), n + 1):
                     tc, rc = t.inner_dims(k), r.inner_dims(k)
                     ex = exact_matches(inner_json(tj, k), inner_json(rj, k))
